@@ -1,12 +1,14 @@
 package treex
 
 import (
+	"bytes"
 	"encoding/json"
 	"fmt"
 	"math/big"
 	"strings"
 	"time"
 
+	"github.com/33cn/chain33/common/address"
 	dbm "github.com/33cn/chain33/common/db"
 	"github.com/33cn/chain33/common/difficulty"
 	"github.com/33cn/chain33/types"
@@ -133,17 +135,20 @@ func (cc *crashCtx) consistent(n *vnode.Node, chain []string) string {
 func RunCrash(r *vx.Run, maxN int) {
 	// -replay: only the recorded (tree, order, crash point) is run
 	onlyShape, onlyOrder, onlyC := "", "", -1
+	onlyBig := false
 	if raw, ok := r.Replaying(); ok {
 		var c struct {
 			Shape Shape `json:"shape"`
 			Order []int `json:"order"`
 			C     int   `json:"crash_after_units"`
+			Big   bool  `json:"big_block"`
 		}
 		if err := json.Unmarshal(raw, &c); err != nil {
 			fmt.Println("REPLAY-ERROR", err)
 			return
 		}
 		onlyShape, onlyOrder, onlyC = c.Shape.String(), fmt.Sprint(c.Order), c.C
+		onlyBig = c.Big
 		if n := len(c.Shape.Parent); n > maxN {
 			maxN = n
 		}
@@ -158,6 +163,7 @@ func RunCrash(r *vx.Run, maxN int) {
 	type hist struct {
 		sh     Shape
 		blocks []*types.Block
+		big    bool
 	}
 	var hs []hist
 	for n := 1; n <= maxN; n++ {
@@ -171,7 +177,7 @@ func RunCrash(r *vx.Run, maxN int) {
 			if heavy > 1 {
 				continue
 			}
-			if onlyShape != "" && sh.String() != onlyShape {
+			if (onlyShape != "" && sh.String() != onlyShape) || onlyBig {
 				continue
 			}
 			blocks, err := env.Build(sh)
@@ -179,7 +185,26 @@ func RunCrash(r *vx.Run, maxN int) {
 				r.Note("build failed: %v", err)
 				continue
 			}
-			hs = append(hs, hist{sh, blocks})
+			hs = append(hs, hist{sh, blocks, false})
+		}
+	}
+	// one history with a block near the size limits: 110 transactions of 95 KB (more than 10 MB of transaction
+	// index records in the block's connect batch) followed by an ordinary block
+	if onlyShape == "" || onlyBig {
+		var txs []*types.Transaction
+		for i := 0; i < 110; i++ {
+			env.nonce++
+			tx := &types.Transaction{Execer: []byte("none"), Payload: bytes.Repeat([]byte{byte(i)}, 95000), Fee: 20000000, To: address.ExecAddress("none"), Nonce: env.nonce, ChainID: env.Cfg.GetChainID()}
+			tx.Sign(types.SECP256K1, vnode.Key(vnode.GenesisKeyHex))
+			txs = append(txs, tx)
+		}
+		bigB, err := env.MakeWith(env.Trunk[env.Len], txs, Bits[0], 0)
+		if err != nil {
+			r.Note("big block: build failed: %v", err)
+		} else if small, err := env.Make(bigB, 1, Bits[0]); err != nil {
+			r.Note("big block: child build failed: %v", err)
+		} else {
+			hs = append(hs, hist{Shape{Parent: []int{-1, 0}, W: []int{0, 0}}, []*types.Block{bigB, small}, true})
 		}
 	}
 	env.P.Close()
@@ -200,9 +225,15 @@ func RunCrash(r *vx.Run, maxN int) {
 		}
 		n := len(h.blocks)
 		for _, order := range Perms(n) {
+			if h.big && order[0] != 0 {
+				continue // the large block first, then its child
+			}
 			item++
 			if !r.Mine(item) || (onlyOrder != "" && fmt.Sprint(order) != onlyOrder) {
 				continue
+			}
+			if h.big {
+				r.Count("hit_large_block_history", 1)
 			}
 			if r.Expired("histories") {
 				return
@@ -269,7 +300,7 @@ func RunCrash(r *vx.Run, maxN int) {
 					}
 				}
 			}
-			r.Seen("histories", fmt.Sprintf("%s|%v", h.sh, order))
+			r.Seen("histories", fmt.Sprintf("%s|%v|%v", h.sh, order, h.big))
 			r.Seen("distinct", fmt.Sprintf("n=%d units=%d reorg=%v", n, N, len(reached[len(reached)-1]) < TrunkLen+1+n))
 			for c := 0; c <= N; c++ {
 				c := c
@@ -333,6 +364,10 @@ func RunCrash(r *vx.Run, maxN int) {
 				r.Count("transitions", int64(c))
 				kase := map[string]interface{}{"shape": h.sh, "order": order, "crash_after_units": c, "units": N}
 				desc := fmt.Sprintf("tree %s, order %v, process stops after %d of %d durable writes", h.sh, order, c, N)
+				if h.big {
+					kase["big_block"] = true
+					desc = "first block of 110 transactions x 95 KB, " + desc
+				}
 				where := "before-first-write"
 				if c > 0 {
 					fams := map[string]bool{}
@@ -346,7 +381,7 @@ func RunCrash(r *vx.Run, maxN int) {
 						where += "(block pre-store)"
 					}
 				}
-				r.Seen("states", fmt.Sprintf("%s|%v|%d", h.sh, order, c))
+				r.Seen("states", fmt.Sprintf("%s|%v|%d|%v", h.sh, order, c, h.big))
 				if bad != "" {
 					// the same crash point must fail the same way every time before it is believed
 					r.Violate("crash:"+where+":"+vx.Norm(bad, 50), desc+" ["+where+"]: "+bad, kase, func() string { return vx.Norm(judge(), 50) })
